@@ -619,8 +619,45 @@ def check_columns(prog, rep, tier):
     rep.floor("R4-columns", 16)
 
 
+def check_padding(prog, rep, tier):
+    """R4-padding: generated default labels `<stem><i>.zfill(W) for i in range(N)` take their width W from the same count N they enumerate
+    (readers rebuild the matrix in sorted-label order, so labels must sort in index order)"""
+    n = 0
+    for f in prog.all_functions():
+        src_has = False
+        for node in walk_no_nested(f.node):
+            if isinstance(node, (ast.ListComp, ast.GeneratorExp)) and len(node.generators) == 1:
+                gen = node.generators[0]
+                if not (isinstance(gen.iter, ast.Call) and dump(gen.iter.func) == "range" and len(gen.iter.args) == 1):
+                    continue
+                z = [c for c in ast.walk(node.elt) if isinstance(c, ast.Call) and isinstance(c.func, ast.Attribute) and c.func.attr == "zfill" and len(c.args) == 1]
+                if len(z) != 1 or not isinstance(z[0].args[0], ast.Name):
+                    continue
+                W = z[0].args[0].id
+                N = "".join(dump(gen.iter.args[0]).split())
+                defs = [s_.value for s_ in walk_no_nested(f.node) if isinstance(s_, ast.Assign) and len(s_.targets) == 1 and dump(s_.targets[0]) == W]
+                if len(defs) != 1:
+                    continue
+                d = "".join(dump(defs[0]).split())
+                import re as _re
+                m = _re.fullmatch(r"math\.ceil\(math\.log10\((.+)\)\)\+1", d)
+                if not m:
+                    continue
+                n += 1
+                rep.saw(f)
+                construct = "%s[%s]" % (f.qualname, W)
+                if m.group(1) == N:
+                    rep.ok("R4-padding", construct, "labels over range(%s) padded to the digits of %s" % (N, N))
+                else:
+                    rep.violate("R4-padding", construct, "labels enumerate range(%s) but are zero-padded to the digits of %s: once %s needs more digits the generated names no longer sort "
+                                "in index order, and the table is read back with rows permuted" % (N, m.group(1), N), where(f, defs[0]), "math.ceil(math.log10(%s))+1" % N, dump(defs[0]))
+    rep.floor("R4-padding", 16)
+    rep.extra["padded_label_sites"] = n
+
+
 def run(prog, rep, tier):
     _orig_run2(prog, rep, tier)
     rep.floor("R5-vcf", 2)
     check_vcf(prog, rep, tier)
     check_columns(prog, rep, tier)
+    check_padding(prog, rep, tier)
